@@ -31,6 +31,15 @@ type Outcome struct {
 	Globals map[string]string
 	Code    *compiler.Code
 	VM      *vm.VirtualMachine
+	release context.CancelFunc
+}
+
+// Release frees the guard timer of the run; call it when the VM is no longer used.
+func (o *Outcome) Release() {
+	if o.release != nil {
+		o.release()
+		o.release = nil
+	}
 }
 
 func (o Outcome) Rejected() bool { return o.Stage == "parse" || o.Stage == "compile" }
@@ -86,6 +95,19 @@ type Env struct {
 	OnVM    func(m *vm.VirtualMachine) // called after the VM is built, before it runs
 }
 
+// safeInspect renders a value; a panic inside Inspect (a corrupted value) is reported in the text.
+func safeInspect(o object.Object) (s string) {
+	defer func() {
+		if r := recover(); r != nil {
+			s = fmt.Sprint("<Inspect panicked: ", r, ">")
+		}
+	}()
+	if o == nil {
+		return "<Go nil object>"
+	}
+	return o.Inspect()
+}
+
 // NewEnv builds the standard harness environment: risor's builtins + print/printf +
 // host builtins emit(k), n(), probe(k). extra adds / overrides globals.
 func NewEnv(extra map[string]any) *Env {
@@ -97,12 +119,12 @@ func NewEnv(extra map[string]any) *Env {
 		e.Globals[k] = v
 	}
 	e.Globals["emit"] = object.NewBuiltin("emit", func(ctx context.Context, args ...object.Object) object.Object {
-		e.mu.Lock()
-		e.Emits++
 		s := "#?"
 		if len(args) == 1 {
-			s = "#" + args[0].Inspect()
+			s = "#" + safeInspect(args[0])
 		}
+		e.mu.Lock()
+		e.Emits++
 		e.Log = append(e.Log, s)
 		e.mu.Unlock()
 		return object.Nil
@@ -140,13 +162,70 @@ func (e *Env) Reset() {
 }
 
 // Eval = Compile + RunCode on this environment (after Reset).
-func (e *Env) Eval(src string, names []string) Outcome {
+func (e *Env) Eval(src string, names []string) Outcome { return e.EvalPost(src, names, nil) }
+
+// EvalPost additionally has the host call the functions held by the globals in post
+// (vm.Get + vm.Call, argument 0 if the function takes one); results are logged as "#host <value>".
+func (e *Env) EvalPost(src string, names []string, post []string) Outcome {
 	e.Reset()
 	code, o := e.Compile(src)
 	if code == nil {
 		return o
 	}
-	return e.RunCode(code, names, 5*time.Second)
+	o = e.RunCode(code, names, 5*time.Second)
+	defer o.Release()
+	if o.Stage == "ok" && len(post) > 0 {
+		e.post(&o, post)
+		if o.Stage == "ok" && len(names) > 0 {
+			for _, n := range names {
+				if v, err := o.VM.Get(n); err == nil && v != nil {
+					o.Globals[n] = safeInspect(v)
+				}
+			}
+		}
+	}
+	return o
+}
+
+func (e *Env) post(o *Outcome, post []string) {
+	defer func() {
+		if r := recover(); r != nil {
+			o.Stage = "gopanic"
+			o.ErrText = fmt.Sprint("in vm.Call: ", r)
+		}
+		e.mu.Lock()
+		o.Log = append([]string(nil), e.Log...)
+		e.mu.Unlock()
+	}()
+	for _, name := range post {
+		obj, err := o.VM.Get(name)
+		if err != nil {
+			e.logLine("#host get error " + err.Error())
+			continue
+		}
+		fn, ok := obj.(*object.Function)
+		if !ok {
+			e.logLine("#host not a function")
+			continue
+		}
+		var args []object.Object
+		if len(fn.Parameters()) > 0 {
+			args = []object.Object{object.NewInt(0)}
+		}
+		res, err := o.VM.Call(context.Background(), fn, args)
+		if err != nil {
+			cls, _ := Classify(err.Error())
+			e.logLine("#host error " + cls)
+		} else {
+			e.logLine("#host " + safeInspect(res))
+		}
+	}
+}
+
+func (e *Env) logLine(s string) {
+	e.mu.Lock()
+	e.Log = append(e.Log, s)
+	e.mu.Unlock()
 }
 
 // Compile parses and compiles src against the environment's global names.
@@ -173,7 +252,8 @@ func (e *Env) Compile(src string) (code *compiler.Code, o Outcome) {
 func (e *Env) RunCode(code *compiler.Code, names []string, timeout time.Duration) (o Outcome) {
 	defer func() {
 		if r := recover(); r != nil {
-			o = Outcome{Stage: "gopanic", ErrText: fmt.Sprint(r)}
+			rel := o.release
+			o = Outcome{Stage: "gopanic", ErrText: fmt.Sprint(r), release: rel}
 		}
 		e.mu.Lock()
 		o.Log = append([]string(nil), e.Log...)
@@ -181,9 +261,12 @@ func (e *Env) RunCode(code *compiler.Code, names []string, timeout time.Duration
 	}()
 	ctx := context.Background()
 	if timeout > 0 {
+		// The context is deliberately not cancelled when the run returns: cancelling a finished
+		// run's context can halt a later call on the same VM (the subject of C07). The timer is
+		// released by Outcome.Release once the VM is no longer used.
 		var cancel context.CancelFunc
 		ctx, cancel = context.WithTimeout(ctx, timeout)
-		defer cancel()
+		o.release = cancel
 	}
 	machine := vm.New(code, vm.WithGlobals(e.Globals), vm.WithOS(e.OS), vm.WithConcurrency())
 	o.VM = machine
@@ -202,7 +285,7 @@ func (e *Env) RunCode(code *compiler.Code, names []string, timeout time.Duration
 	}
 	o.Stage = "ok"
 	if v, ok := machine.TOS(); ok && v != nil {
-		o.Val = v.Inspect()
+		o.Val = safeInspect(v)
 		o.Type = string(v.Type())
 	} else {
 		o.Val, o.Type = "nil", "nil"
@@ -211,7 +294,7 @@ func (e *Env) RunCode(code *compiler.Code, names []string, timeout time.Duration
 		o.Globals = map[string]string{}
 		for _, n := range names {
 			if v, err := machine.Get(n); err == nil && v != nil {
-				o.Globals[n] = v.Inspect()
+				o.Globals[n] = safeInspect(v)
 			}
 		}
 	}
@@ -225,5 +308,7 @@ func Eval(src string, names []string) Outcome {
 	if code == nil {
 		return o
 	}
-	return e.RunCode(code, names, 5*time.Second)
+	out := e.RunCode(code, names, 5*time.Second)
+	out.Release()
+	return out
 }
